@@ -526,6 +526,19 @@ Plan plan_C08(Rng& r, const std::string&) {
 				g.out.push_back(gen::mk(c, "bdd_binary", {l, rr, long(r.chance(2, 3) ? 2 : r.below(2)), bu, long(r.below(2))})); ++n;
 			}
 		}
+		if (r.chance(1, 4)) {
+			// "accumulator": acc = copy of A; u = acc op B (a result that shares acc's table where the library reuses it); acc = u (copy
+			// assignment from a named object onto a relative that already shares its table); again with the next operand
+			bool bu = r.chance(2, 3); int& n = bu ? g.nbu : g.ntd; o.sparse = false;
+			int a = g.load(gen::gen_ta(r, pool, o), bu); int acc = n; g.out.push_back(gen::mk(c, "bdd_copy", {a, bu})); ++n;
+			int rounds = r.range(1, 3);
+			for (int i = 0; i < rounds; ++i) {
+				int b = g.load(gen::gen_ta(r, pool, o), bu); int u = n;
+				g.out.push_back(gen::mk(c, "bdd_binary", {acc, b, long(r.chance(1, 6) ? 2 : r.below(2)), bu, long(r.below(2))})); ++n;
+				g.out.push_back(gen::mk(c, "bdd_assign", {acc, u, bu}));
+				if (r.chance(1, 3)) { g.out.push_back(gen::mk(c, "bdd_destroy", {u, bu})); --n; }
+			}
+		}
 		if (r.chance(1, 3)) g.out.push_back(cli_step(r, c, 1 + long(r.below(2)), long(r.below(3)), mdl::to_lit(gen::gen_ta(r, pool, o)), mdl::to_lit(gen::gen_ta(r, pool, o))));      // vata -r bdd-.. load|union|isect [-p|-s]
 		for (int i = 0; i < len; ++i) {
 			uint64_t x = r.below(100); bool bu = r.chance(1, 2);
